@@ -3,6 +3,7 @@
 All rules work on the polymorphic MIR of flatty_io (they hold for every pipe / message type).
 Blocking and async siblings are checked by the same rule code.
 """
+import re
 from facts import AnchorLost
 from mir import Body, strip, show, walk, is_call_to
 from paths import events, call_matches, find_calls, bool_taken, norm_cmp, root_call_bb
@@ -338,7 +339,7 @@ def write_loop_rules(F, R, variant):
             if okf:
                 okf = _flush_edges_ok(body, fbb, clear_calls[0][0])
         R.ob("W10.flush", fn, "flush", okf,
-             "send completes only after poll_flush returned Ready(Ok): every path from the loop exit to return passes poll_flush, and clear() follows its success edge",
+             "send completes only after poll_flush returned Ready(Ok): every path from the loop exit to return passes poll_flush, its Err is told apart and returned, and clear() follows its success edge",
              where=b["span"])
         # W11 Pending edges: return Pending with no state change
         pend_ok = True
@@ -445,6 +446,7 @@ def _pending_edges(body, call_bb):
 def _flush_edges_ok(body, fbb, clear_bb):
     """clear_bb must be unreachable from the Pending edge and from the Err edge of the flush result."""
     bad_starts = list(_pending_edges(body, fbb))
+    n_pending = len(bad_starts)
     # Err edges: discr on (result as Ready).0 or via Try::branch
     for sbb, st in body.switches():
         cond = body.expr_of_operand(st["switch"])
@@ -471,8 +473,8 @@ def _flush_edges_ok(body, fbb, clear_bb):
                     for v, tb in st["targets"]:
                         if int(v) == 1:
                             bad_starts.append((sbb, tb))
-    if not bad_starts:
-        return False
+    if not bad_starts or len(bad_starts) == n_pending:
+        return False   # the flush result is not discriminated into Ok / Err: a failed flush would be reported as success
     for _, tb in bad_starts:
         if clear_bb in body.reachable_from(tb):
             return False
@@ -532,6 +534,7 @@ def read_rules(F, R, variant):
     r3 = True
     npaths = 0
     oom_exit = False
+    early_bad = []
     for p in body.paths(0, stop=[rbb]):
         evs = events(body, p)
         if p[-1] != rbb:
@@ -540,6 +543,10 @@ def read_rules(F, R, variant):
             pz = _path_has_cmp(evs, "Buffer::preceding_len", "Le", 0) or _path_has_cmp(evs, "Buffer::preceding_len", "Eq", 0)
             if vz and pz:
                 oom_exit = oom_exit or _path_builds_errorkind(evs, "OutOfMemory")
+            elif body.term(p[-1]) == "return":
+                # any other way out before the pipe call (an error although bytes precede, i.e. although compaction would make room)
+                r3 = False
+                early_bad.append("early return without vacant == 0 and preceding == 0 (path %s)" % p[:12])
             continue
         npaths += 1
         vnz = _path_has_cmp(evs, "Buffer::vacant_len", "Ne", 0) or _path_has_cmp(evs, "Buffer::vacant_len", "Lt0", 0)
@@ -550,7 +557,8 @@ def read_rules(F, R, variant):
         if compacted and not (pre_pos and _path_has_cmp(evs, "Buffer::vacant_len", "Eq", 0)):
             r3 = False  # compaction only when full and something precedes
     R.ob("R3.oom-before-empty-read", fn, "pre-read", r3 and npaths >= 2 and oom_exit,
-         "the pipe is never asked to read into an empty slice: full buffer => compact if bytes precede, else OutOfMemory error (%d paths)" % npaths,
+         "the pipe is never asked to read into an empty slice: full buffer => compact if bytes precede, else (and only then) OutOfMemory error (%d paths)%s" % (
+             npaths, "" if not early_bad else " -- " + early_bad[0]),
          where=b["span"])
     # R4 advance only on Ok(n) with that n; no mutation on Err / Pending
     adv = find_calls(body, "Buffer::advance")
@@ -1108,6 +1116,12 @@ def window_rules(F, R):
             if s["l"]["v"] == 0 and not s["l"]["p"]:
                 ok = check(strip(body.expr_of_rvalue(s["r"])))
         R.ob("F5.getter", "common::io::Buffer::" + name, "value", ok, "%s() is the window arithmetic it names" % name, where=b["span"])
+    b = get("capacity")
+    from e5_formulas import canon as _canon, the_return as _the_return
+    R.count("functions_analysed")
+    rets = _the_return(Body(b))
+    okc = len(rets) == 1 and re.fullmatch(r"core::slice::<impl \[T\]>::len\((<[^()]*AlignedBytes as core::ops::deref::Deref>::deref|<[^()]*AlignedBytes as core::convert::AsRef<\[u8\]>>::as_ref)\(\$self\.0\)\)", rets[0]) is not None
+    R.ob("F5.getter", "common::io::Buffer::capacity", "value", okc, "capacity() is the length of the allocation (%s)" % rets, where=b["span"])
     for name, rng in (("occupied", "window"), ("occupied_mut", "window"), ("vacant_mut", "from-end")):
         b = get(name)
         body = Body(b)
